@@ -108,7 +108,7 @@ def lexer_mc_and_replay(c, tier, limit_replay=None):
         bf = os.path.join(WORK, f"lex_{name}.beh.ndjson")
         mf = os.path.join(WORK, f"lex_{name}.mismatch.ndjson")
         write_ndjson(bf, beh)
-        rr = run([VH, "replay", "lex", bf, mf], timeout=1800)
+        rr = run([VH, "replay", "lex", bf, mf], timeout=Q(tier, 1800, 14400))
         st = json.loads(rr.stdout.strip().splitlines()[-1])
         total_beh += st["replayed"]
         if len(c.samples) < 4:
